@@ -63,16 +63,12 @@ def nextLineC (cs : List (List Byte)) : List Byte × List (List Byte) := nextLin
 def linesOf : Nat → List Byte → List (List Byte)
   | 0, _ => []
   | n + 1, inp =>
-    match nextLine inp with
-    | ([], _) => []
-    | (l, rest) => l :: linesOf n rest
+    if (nextLine inp).1 = [] then [] else (nextLine inp).1 :: linesOf n (nextLine inp).2
 
 def linesOfC : Nat → List (List Byte) → List (List Byte)
   | 0, _ => []
   | n + 1, cs =>
-    match nextLineC cs with
-    | ([], _) => []
-    | (l, rest) => l :: linesOfC n rest
+    if (nextLineC cs).1 = [] then [] else (nextLineC cs).1 :: linesOfC n (nextLineC cs).2
 
 /-! ### The lexer buffer and `Parser::command_line` -/
 
@@ -100,11 +96,10 @@ def pull (parse : Bool → List Byte → ParseRes) : Nat → List Byte → List 
     | ([], rest) => { text := buf, rest := rest, res := parse true buf, sawEof := true }
     | (line, rest) =>
       let buf' := buf ++ line
-      match parse false buf' with
-      | .incomplete =>
-        if endsNL line then pull parse n buf' rest
-        else { pull parse n buf' rest with sawEof := true }
-      | r => { text := buf', rest := rest, res := r, sawEof := !endsNL line }
+      if (parse false buf').isIncomplete then
+        { pull parse n buf' rest with
+          sawEof := (pull parse n buf' rest).sawEof || !endsNL line }
+      else { text := buf', rest := rest, res := parse false buf', sawEof := !endsNL line }
 
 /-! ### Shell state and built-ins -/
 
@@ -247,9 +242,27 @@ def setOption (s : State) (name : String) (on : Bool) : State :=
 def outLines : Nat → List Byte → List Out
   | 0, _ => []
   | n + 1, inp =>
-    match nextLine inp with
-    | ([], _) => []
-    | (l, rest) => Out.raw l :: outLines n rest
+    if (nextLine inp).1 = [] then [] else Out.raw (nextLine inp).1 :: outLines n (nextLine inp).2
+
+/-- the `read` built-in: one (logical) line from standard input into the variables; status 1 at end
+    of input -/
+def execRead (s : State) (raw : Bool) (names : List String) : State :=
+  let r := readLine raw s.stdin []
+  let s' := s.setStdin r.2.2 (s.stdin.length - r.2.2.length)
+  { s' with vars := assignRead names r.1 s'.vars, status := if r.2.1 then 0 else 1,
+            hitEof := s'.hitEof || (s'.shared && !r.2.1) }
+
+/-- `cat`: a here-document if there is one, otherwise everything left on standard input -/
+def execCat (s : State) (bodies : List (List Char)) (here : Option Nat) : State :=
+  match here with
+  | some k =>
+    let body := toBytes (bodies.getD k [])
+    { s with out := (outLines (body.length + 1) body).reverse ++ s.out, status := 0 }
+  | none =>
+    let all := s.stdin
+    let s' := s.setStdin [] all.length
+    { s' with out := (outLines (all.length + 1) all).reverse ++ s'.out, status := 0,
+              hitEof := s'.hitEof || s'.shared }
 
 /-- a simple command after expansion: the built-ins -/
 def execSimple (s : State) (bodies : List (List Char)) (fields : List String) (here : Option Nat) : State :=
@@ -265,13 +278,7 @@ def execSimple (s : State) (bodies : List (List Char)) (fields : List String) (h
       { s with status := (args.head?.bind String.toNat?).getD 0 }
     else if name == ":" then { s with status := 0 }
     else if name == "read" then
-      let raw := args.head? == some "-r"
-      let names := if raw then args.drop 1 else args
-      let (cs, found, rest) := readLine raw s.stdin []
-      let used := s.stdin.length - rest.length
-      let s := s.setStdin rest used
-      { s with vars := assignRead names cs s.vars, status := if found then 0 else 1,
-               hitEof := s.hitEof || (s.shared && !found) }
+      if args.head? == some "-r" then execRead s true (args.drop 1) else execRead s false args
     else if name == "alias" then
       match args.head?.bind splitEq with
       | some (n, v) => { s with aliases := (n, v) :: s.aliases.filter (·.1 != n), status := 0 }
@@ -287,16 +294,7 @@ def execSimple (s : State) (bodies : List (List Char)) (fields : List String) (h
       | ["-o", o] => setOption s o true
       | ["+o", o] => setOption s o false
       | _ => { s with status := 2 }
-    else if name == "cat" then
-      match here with
-      | some k =>
-        let body := toBytes (bodies.getD k [])
-        { s with out := (outLines (body.length + 1) body).reverse ++ s.out, status := 0 }
-      | none =>
-        let all := s.stdin
-        let s := s.setStdin [] all.length
-        { s with out := (outLines (all.length + 1) all).reverse ++ s.out, status := 0,
-                 hitEof := s.hitEof || s.shared }
+    else if name == "cat" then execCat s bodies here
     else { s with status := 127 }
 
 /-- one step of command execution; `none` when the continuation is empty -/
